@@ -19,6 +19,7 @@ fn profile(thorough: bool) -> Profile {
         keygen: 9,
         refresh: 12,
         encaps: 10,
+        encaps_wide: 2,
         encaps_for: 6,
         check: 3,
         roundtrip: 3,
